@@ -5,7 +5,7 @@ VARIANT_ALIAS = {"sse2": "simd"}
 ENV = {"sse2": {"JSIMD_FORCESSE2": "1"}}
 RULE = ("cconv/dconv: rows of pixels converted by the real RGB->YCbCr / YCbCr->RGB code for each of the 10 RGB-family pixel formats "
         "(scalar build and SIMD build), compared sample by sample with the layout-parametrised Lean converter (structured sweeps over "
-        "the 2^24 colour cube: all (r,g) at several b, extremes, random); pfeq: the same picture compressed from / decompressed to "
+        "the 2^24 colour cube: all (r,g) at several b, extremes, random); pfleg: the TurboJPEG 2.x entry points on one handle pair, every call another layout, padding and row order; pfeq: the same picture compressed from / decompressed to "
         "every layout with junk in unused bytes, pitch padding and both row orders, 8/12/16-bit, lossy and lossless, every subsampling incl. "
         "grayscale (oracle); variants: scalar build, SIMD build at its best instruction-set level, and the SIMD build held at SSE2 "
         "(each level has its own table of per-layout routines)")
@@ -19,6 +19,8 @@ def classify(op, R):
     p = op.split(" ")
     if p[0] in ("cconv", "dconv"):
         return "%s:pf%s" % (p[0], p[1])
+    if p[0] == "pfleg":
+        return "pfleg:ss%s" % p[1]
     return "pfeq:P%s:ll%s:ss%s" % (p[1], p[2], p[3])
 
 
@@ -35,6 +37,9 @@ def gen_ops(rng, tier):
         P = rng.choice([8, 8, 12, 16, 5]) if ll else rng.choice([8, 8, 12])
         ops.append("pfeq %d %d %d %d %d %d %d %d" % (P, ll, rng.choice([0, 1, 2, 2, 2, 3, 3, 4, 5, 6]), rng.choice([1, 7, 16, 17, 33, 40, rng.randint(1, 70), rng.randint(1, 130)]),
                                                      rng.choice([1, 8, 9, 16, 19]), rng.randrange(1 << 24), rng.randint(0, 1), rng.randint(0, 1)))
+    # the 2.x entry points: one compressor and one decompressor handle, every call another layout / padding / row order
+    for i in range(200 if big else 30):
+        ops.append("pfleg %d %d %d %d" % (rng.choice([0, 1, 2, 2, 3, 4]), rng.choice([1, 7, 16, 17, 33, 40]), rng.choice([1, 8, 9, 16, 19]), rng.randrange(1 << 24)))
     # merged (fast) upsampling + crop + 4-sample layouts, both parities of the top row
     for P in (8, 12):
         for ss in (1, 2):
